@@ -73,13 +73,22 @@ Fixpoint add_batches (a : assocs) (bs : list (list str)) : option assocs :=
   | b :: bs' => match add_batch a b with Some a' => add_batches a' bs' | None => None end
   end.
 
+(* each procedure recorded once: no entry of the list twice *)
+Fixpoint nodup_b {A} (eqb : A -> A -> bool) (l : list A) : bool :=
+  match l with
+  | [] => true
+  | x :: l' => negb (existsb (eqb x) l') && nodup_b eqb l'
+  end.
+
 Definition judge_add (c : list (list str) * list chain * str * option (list chain)) : nat :=
   let '(bs, calls, line, impl) := c in
   let model := match add_batches [] bs with
                | Some a => Some (add_calls a calls line)
                | None => None
                end in
-  verdict (negb (opt_eqb chains_eqb model impl)) false 0.
+  (* Spec side: the earlier calls being pairwise different, the implementation's list is so as well *)
+  let dup := match impl with Some l => nodup_b (list_eqb str_eqb) calls && negb (nodup_b (list_eqb str_eqb) l) | None => false end in
+  verdict (negb (opt_eqb chains_eqb model impl)) dup 0.
 
 (* ---- a whole executable part:
    (FORD's label tables when the unit's calls were resolved, the tables Fortran's scoping gives,
@@ -102,7 +111,7 @@ Definition judge_unit (c : symtab * symtab * list str * option (list str) * opti
     else
       let spec_bad :=
         match impl with
-        | Some names => negb (set_eqb names (calls_of tb_true ss))
+        | Some names => negb (set_eqb names (calls_of tb_true ss) && nodup_b str_eqb names)
         | None => true
         end in
       verdict model_bad spec_bad (region_of tb_ford tb_true ss)
